@@ -38,7 +38,7 @@ fn run<G: Group>(sc: &Scenario, st: &mut RunStats) -> Vec<Violation> {
     let proof = match prove_mode::<G>(&sc.ctx, &built.statement, &built.witness, &RngMode::Healthy(sc.rng_seed)).0 {
         Ok(Ok(p)) => p,
         _ => {
-            out.push(Violation::new("setup_honest_proof_failed", "setup", format!("cfg={:?}", sc.cfg)));
+            out.push(Violation::new("harness:setup_honest_proof_failed", "setup", format!("cfg={:?}", sc.cfg)));
             return out;
         },
     };
@@ -49,7 +49,7 @@ fn run<G: Group>(sc: &Scenario, st: &mut RunStats) -> Vec<Violation> {
             Ok(Ok(())) => {},
             other => {
                 out.push(Violation::new(
-                    "setup_honest_message_rejected",
+                    "harness:setup_honest_message_rejected",
                     "setup",
                     format!("cfg={:?} mode={} result={:?}", sc.cfg, action_name(a), other),
                 ));
@@ -58,6 +58,16 @@ fn run<G: Group>(sc: &Scenario, st: &mut RunStats) -> Vec<Violation> {
         }
     }
     st.event(format!("honest message cfg={:?} seed={} accepted", sc.cfg, sc.wit.seed_nonce.is_some()));
+    // an honest companion (same bits / ext, a single commitment) for deliveries in a batch context:
+    // the altered triple is then neither alone nor, when m >= 2, the first or the smallest member
+    let ccfg = Config { bits: sc.cfg.bits, m: 1, cap: 1, ext: sc.cfg.ext };
+    let cwit = WitnessSpec { values: vec![0], promises: vec![None], blind_seed: sc.fault_seed ^ 0x5EED, seed_nonce: None };
+    let cctx = Context { label: 7, extra: None };
+    let cbuilt = build::<G>(&ccfg, &cwit);
+    let companion = match prove_mode::<G>(&cctx, &cbuilt.statement, &cbuilt.witness, &RngMode::Healthy(sc.rng_seed ^ 1)).0 {
+        Ok(Ok(p)) => Some((cbuilt.public_statement.clone(), p)),
+        _ => None,
+    };
     let frng = SimRng::new(sc.fault_seed);
     let faults = enumerate_faults(&msg, &mut frng.split("enumerate"));
     st.probe(&format!("ext_{}", sc.cfg.ext));
@@ -79,6 +89,42 @@ fn run<G: Group>(sc: &Scenario, st: &mut RunStats) -> Vec<Violation> {
             continue;
         };
         st.fault(f.kind());
+        // batch context: [companion, altered] and [altered, companion]
+        // (the compressed forms of a non-first member's generators are redundant copies the batch
+        // verifier never reads — members are compared by their generator points — so an alteration of
+        // the encoding alone is only meaningful for a triple verified on its own)
+        let encoding_only = matches!(f, Fault::GeneratorH(GenPart::CompressedOnly) | Fault::GeneratorG { part: GenPart::CompressedOnly, .. });
+        if encoding_only {
+            st.probe("encoding_only_fault_not_delivered_in_batch_context");
+        } else if let (Some((cst, cpr)), Ok(Delivered::Ready(bst, bpr))) = (&companion, guarded(|| bad.open())) {
+            for altered_first in [false, true] {
+                let (sts, prs, ctxs): (Vec<_>, Vec<_>, Vec<&Context>) = if altered_first {
+                    (vec![bst.clone(), cst.clone()], vec![bpr.clone(), cpr.clone()], vec![&bad.ctx, &cctx])
+                } else {
+                    (vec![cst.clone(), bst.clone()], vec![cpr.clone(), bpr.clone()], vec![&cctx, &bad.ctx])
+                };
+                st.evals += 1;
+                let r = verify::<G>(&ctxs, &sts, &prs, VerifyAction::VerifyOnly);
+                st.probe("delivered_in_batch_context");
+                st.event(format!("fault#{} {:?} in batch (altered first: {}) -> {}", i, f, altered_first, if is_ok(&r) { "Ok" } else if is_err(&r) { "Err" } else { "PANIC" }));
+                if !is_err(&r) {
+                    out.push(Violation::new(
+                        if is_ok(&r) { "altered_triple_accepted" } else { "altered_triple_panicked" },
+                        format!("{:?} in batch", f),
+                        format!(
+                            "fault #{} {:?} applied to an accepted triple (cfg={:?}, group {}), delivered in a batch {} an honest single-commitment companion: {}",
+                            i,
+                            f,
+                            sc.cfg,
+                            G::NAME,
+                            if altered_first { "before" } else { "after" },
+                            render_verify(&r)
+                        ),
+                    ));
+                    return out;
+                }
+            }
+        }
         for a in [VerifyAction::VerifyOnly, VerifyAction::RecoverAndVerify] {
             st.evals += 1;
             let res = bad.deliver(a);
@@ -203,7 +249,7 @@ impl Check for C05 {
         if sc.only.is_none() {
             // find the failing fault index by bisection-free scan is done by the runner calling
             // execute on each candidate; offer every index (cheap: one fault each)
-            for i in 0..600 {
+            for i in 0..700 {
                 let mut s = sc.clone();
                 s.only = Some(i);
                 v.push(s);
@@ -221,7 +267,8 @@ impl Check for C05 {
         vec![
             "flip_bit", "replace_scalar", "replace_point", "drop_round", "add_round", "retag_extension", "truncate",
             "extend", "swap_commitments", "replace_commitment", "promise", "bits", "generator_h", "generator_g",
-            "context_label", "context_extra", "ext_6", "ext_4", "m_ge_8", "aggregated",
+            "context_label", "context_extra", "ext_6", "ext_4", "m_ge_8", "aggregated", "add_many_rounds",
+            "delivered_in_batch_context",
         ]
     }
 }
